@@ -418,6 +418,21 @@ func Run(job *wk.Job, w *wk.Worker) error {
 			}
 		}
 	}
+	// part L2: strings with hundreds of invalid UTF-8 bytes (each is replaced by a three-byte U+FFFD in the stream window,
+	// which outgrows the buffer), pure and mixed with valid text, at three offsets
+	for _, n := range []int{90, 300, 600, 2100} {
+		for _, unit := range []string{"\xff", "\xc0a", "\xed\xa0\x80", "ok\x80"} {
+			for _, pre := range []int{0, 509} {
+				if w.Mine(idx) {
+					doc := strings.Repeat(" ", pre) + `["` + strings.Repeat(unit, n) + `",{"` + strings.Repeat(unit, n/3) + `":1}]`
+					w.Begin(idx, func() interface{} { return desc("L2", "*", []byte(doc)) })
+					w.Nontrivial()
+					r.exec("L2", []byte(doc), "", idx)
+				}
+				idx++
+			}
+		}
+	}
 	// part P: path strings
 	alpha := []string{"$", ".", "[", "]", "*", "'", "\"", "0", "1", "a", "b", "-", " "}
 	var rec func(s string, depth int)
